@@ -249,9 +249,32 @@ func scenarioC18(c *hlib.RunCtx) *hlib.Violation {
 				}
 				s.Probe("listing-during-write")
 			}
+			// Another object is written while this writer is still open (two uploads,
+			// a merge and a chart: the services keep several writers alive at once).
+			if t.Bool(1, 5) {
+				other := genName()
+				if other != name && !isPrefixConflict(other) && !strings.HasPrefix(other, name+"/") && !strings.HasPrefix(name, other+"/") {
+					od := []byte(fmt.Sprintf("meanwhile-%d-%d", i, t.Draw(1000)))
+					if w2, err := bh.Object(other).NewWriter(ctx); err == nil {
+						w2.Write(od)
+						if err := w2.Close(); err != nil {
+							fail("write-failed", "closing %q: %v", other, err)
+							w.Close()
+							break
+						}
+						model[other] = od
+						ops = append(ops, "write "+other+" (while "+name+" is open)")
+						s.Probe("two-writers-open")
+					}
+				}
+			}
 			if err := w.Close(); err != nil {
 				fail("write-failed", "closing %q: %v", name, err)
 				break
+			}
+			if t.Bool(1, 4) {
+				w.Close() // closing again (a deferred Close after an explicit one, as the services do) changes nothing
+				s.Probe("closed-twice")
 			}
 			model[name] = data
 			ops = append(ops, "write "+name)
